@@ -161,6 +161,9 @@ P3 = {
     "src/a_util.f90": "module util\n!! util of a\ninteger :: from_a\ncontains\nsubroutine helper()\n!! helper a\nend subroutine helper\nend module util\n",
     "src/b_util.f90": "module util\n!! util of b\ninteger :: from_b\ntype util_t\n!! type in b\ninteger :: q\nend type util_t\nend module util\n",
     "src/c_user.f90": "module Util\n!! Util of c (capitalised)\nend module Util\nprogram user\n!! uses a util\nuse util\nend program user\n",
+    # two files whose names differ in letter case only, holding equally named procedures
+    "src/Dup.f90": "subroutine area()\n!! area of Dup\nend subroutine area\n",
+    "src/dup.f90": "subroutine area()\n!! area of dup\nend subroutine area\n",
 }
 # a page tree whose index names only some of its entries in ordered_subpage (the rest follow alphabetically)
 PAGES = {
@@ -282,6 +285,33 @@ contains
 end module shapes
 """,
 }
+# ... and two equally named procedures of two modules, both called from one place (equal labels in one graph)
+P4["src/inits.f90"] = """module ia
+  !! ia
+contains
+  subroutine init()
+    !! init of ia
+  end subroutine init
+end module ia
+module ib
+  !! ib
+contains
+  subroutine init()
+    !! init of ib
+  end subroutine init
+end module ib
+module starter
+  !! starter
+  use ia, only: init_a => init
+  use ib, only: init_b => init
+contains
+  subroutine start_all()
+    !! calls both
+    call init_b()
+    call init_a()
+  end subroutine start_all
+end module starter
+"""
 EXT_LIB = """module kinds
   !! kinds of {lib}
   implicit none
@@ -560,6 +590,8 @@ OPTS = {
     "sort-alpha": dict(graph=True, sort="alpha"),
     "private": dict(graph=True, display=["public", "private", "protected"], proc_internals=True),
     "frontpage2": dict(graph=False, max_frontpage_items=2),
+    # graphs too large to be drawn are shown as tables
+    "graph-table": dict(graph=True, graph_maxnodes=1),
 }
 
 
@@ -571,7 +603,7 @@ def main(tier, replay_path=None):
     bound = 1 if tier == "quick" else 2
     jobs = []
     for pname in PROJECTS:
-        for optname in (("graph", "private", "frontpage2") if tier == "quick" else OPTS):
+        for optname in (("graph", "private", "frontpage2", "graph-table") if tier == "quick" else OPTS):
             jobs.append((pname, bound if optname == "graph" else 1, optname, OPTS[optname], None))
         jobs.append((pname, 0, "graph", OPTS["graph"], "other"))
         jobs.append((pname, 0, "graph", OPTS["graph"], "same"))
